@@ -42,6 +42,7 @@ func checkC17(ctx *Ctx, r *Report) {
 	c03MapOrderIn(ctx, r, []string{"internal/veneers"})
 	c17ArgsAssignmentsNotAligned(ctx, r)
 	c17UnfoldTestsTarget(ctx, r)
+	c17FourthRound(ctx, r)
 	// the copies veneers rely on
 	for _, m := range findCopyMethods(ctx) {
 		if m.pkg.PkgPath == astPkgPath {
@@ -1848,4 +1849,188 @@ func c17RebuiltOptionKeepsArguments(ctx *Ctx, r *Report) {
 	}
 	r.Count("options rebuilt around an existing assignment path", n)
 	r.Floor("options rebuilt around an existing assignment path", 2)
+}
+
+// c17FourthRound — three rule contracts broken on sequences of rules (third hunting pass).
+// (a) rename_arguments is a simultaneous substitution: a new name can be the current name of another argument. The
+// uses (assignment values, path indexes, constraints) must therefore not be renamed from inside the loop that walks
+// the arguments one by one — a use renamed for argument i would be renamed again for argument j.
+// (b) promote_options_to_constructor moves the option as a whole: what it appends to Constructor.Args /
+// Constructor.Assignments never is a constant-index element (`opt.Args[0]`, `opt.Assignments[0]`) of the option —
+// an assignment can read several arguments (`labels[key] = label`).
+// (c) struct_fields_as_arguments rebuilds the assignments from the path of the first assignment: sound only when
+// that assignment assigns the first argument itself. The action must leave the option as it is (return it) under a
+// test that reads Value.Argument of that assignment.
+func c17FourthRound(ctx *Ctx, r *Report) {
+	optT := ctx.LookupType("internal/ast", "Option")
+	valT := ctx.LookupType("internal/ast", "AssignmentValue")
+	seenA, seenB, seenC := 0, 0, 0
+	forEachVeneerClosure(ctx, func(p *packages.Package, fd *ast.FuncDecl, fobj *types.Func, lit *ast.FuncLit) {
+		info := p.TypesInfo
+		switch fd.Name.Name {
+		case "RenameArgumentsAction":
+			seenA++
+			bad := token.NoPos
+			why := ""
+			ast.Inspect(lit.Body, func(m ast.Node) bool {
+				rs, ok := m.(*ast.RangeStmt)
+				if !ok {
+					return true
+				}
+				sel, ok := ast.Unparen(rs.X).(*ast.SelectorExpr)
+				if !ok || sel.Sel.Name != "Args" || namedOf(info.TypeOf(sel.X)) != optT {
+					return true
+				}
+				ast.Inspect(rs.Body, func(q ast.Node) bool {
+					switch x := q.(type) {
+					case *ast.RangeStmt:
+						if s2, ok := ast.Unparen(x.X).(*ast.SelectorExpr); ok && s2.Sel.Name == "Assignments" && bad == token.NoPos {
+							bad, why = x.Pos(), "walks the assignments"
+						}
+					case *ast.CallExpr:
+						if fn := callee(info, x); fn != nil && fn.Pkg() == p.Types && bad == token.NoPos {
+							if sig, ok := fn.Type().(*types.Signature); ok {
+								for i := 0; i < sig.Params().Len(); i++ {
+									pt := sig.Params().At(i).Type()
+									if ptr, ok := pt.(*types.Pointer); ok && namedOf(ptr.Elem()) == valT {
+										bad, why = x.Pos(), "calls "+fn.Name()+" on an assignment value"
+									}
+								}
+							}
+						}
+					}
+					return true
+				})
+				return true
+			})
+			r.Check(bad == token.NoPos, "effects/rename-arguments-simultaneous", ctx.FuncName(fobj)+" renames the uses outside the loop over the arguments", lit.Pos(), "the loop over the arguments only renames the arguments themselves",
+				fmt.Sprintf("inside the loop that renames the arguments one by one, the action %s (%s): a use renamed for one argument carries, from then on, the name another argument still has and is renamed again — `rename_arguments as: [label, value]` on labels(key, label) gives labels[value] = value", why, ctx.Pos(bad)))
+		case "PromoteOptionsToConstructor":
+			seenB++
+			n := 0
+			ast.Inspect(lit.Body, func(m ast.Node) bool {
+				c, ok := m.(*ast.CallExpr)
+				if !ok || len(c.Args) < 2 {
+					return true
+				}
+				if id, ok := c.Fun.(*ast.Ident); !ok || id.Name != "append" {
+					return true
+				}
+				dst := exprString(c.Args[0])
+				if !strings.HasSuffix(dst, ".Constructor.Args") && !strings.HasSuffix(dst, ".Constructor.Assignments") {
+					return true
+				}
+				n++
+				// what is appended, with local definitions resolved
+				defs := map[types.Object]ast.Expr{}
+				ast.Inspect(lit.Body, func(q ast.Node) bool {
+					if as, ok := q.(*ast.AssignStmt); ok && as.Tok == token.DEFINE && len(as.Lhs) == len(as.Rhs) {
+						for i, l := range as.Lhs {
+							if id, ok := l.(*ast.Ident); ok {
+								defs[info.Defs[id]] = as.Rhs[i]
+							}
+						}
+					}
+					return true
+				})
+				first := ""
+				var look func(e ast.Expr, depth int)
+				look = func(e ast.Expr, depth int) {
+					ast.Inspect(e, func(q ast.Node) bool {
+						switch x := q.(type) {
+						case *ast.IndexExpr:
+							if s, ok := ast.Unparen(x.X).(*ast.SelectorExpr); ok && (s.Sel.Name == "Args" || s.Sel.Name == "Assignments") && namedOf(info.TypeOf(s.X)) == optT {
+								// an index that walks the whole slice (key of a range over it) is fine
+								walks := false
+								if id, ok := ast.Unparen(x.Index).(*ast.Ident); ok {
+									ast.Inspect(lit.Body, func(k ast.Node) bool {
+										if rs, ok := k.(*ast.RangeStmt); ok && rs.Key != nil && exprString(rs.X) == exprString(x.X) {
+											if kid, ok := rs.Key.(*ast.Ident); ok && info.Defs[kid] == objOf(info, id) {
+												walks = true
+											}
+										}
+										return true
+									})
+								}
+								if !walks && first == "" {
+									first = exprString(x)
+								}
+							}
+						case *ast.Ident:
+							if d, ok := defs[objOf(info, x)]; ok && depth < 3 {
+								look(d, depth+1)
+							}
+						}
+						return true
+					})
+				}
+				for _, a := range c.Args[1:] {
+					look(a, 0)
+				}
+				r.Check(first == "", "effects/promote-whole-option", fmt.Sprintf("%s appends to %s", ctx.FuncName(fobj), dst[strings.Index(dst, "Constructor"):]), c.Pos(), "no single element of the option is promoted on its own",
+					fmt.Sprintf("promote_options_to_constructor appends %s to the constructor: one element of the option, while an assignment can read several arguments (`labels[key] = label`) — the constructor then assigns from an argument it does not declare and the generated code does not compile", first))
+				return true
+			})
+			r.Count("appends to the constructor in promote_options_to_constructor", n)
+		case "StructFieldsAsArgumentsAction":
+			seenC++
+			defs := map[types.Object]ast.Expr{}
+			ast.Inspect(lit.Body, func(q ast.Node) bool {
+				if as, ok := q.(*ast.AssignStmt); ok && as.Tok == token.DEFINE && len(as.Lhs) == len(as.Rhs) {
+					for i, l := range as.Lhs {
+						if id, ok := l.(*ast.Ident); ok {
+							defs[info.Defs[id]] = as.Rhs[i]
+						}
+					}
+				}
+				return true
+			})
+			guarded := false
+			for _, st := range lit.Body.List {
+				is, ok := st.(*ast.IfStmt)
+				if !ok || len(is.Body.List) == 0 {
+					continue
+				}
+				if _, ok := is.Body.List[len(is.Body.List)-1].(*ast.ReturnStmt); !ok {
+					continue
+				}
+				reads := false
+				var look func(e ast.Expr, depth int)
+				look = func(e ast.Expr, depth int) {
+					ast.Inspect(e, func(q ast.Node) bool {
+						switch x := q.(type) {
+						case *ast.SelectorExpr:
+							if x.Sel.Name == "Argument" && namedOf(info.TypeOf(x.X)) == valT {
+								// on the first assignment
+								root := exprString(x.X)
+								if id, ok := ast.Unparen(x.X).(*ast.Ident); ok {
+									if d, ok := defs[objOf(info, id)]; ok {
+										root = exprString(d)
+									}
+								}
+								if strings.Contains(root, "ssignments[0].Value") {
+									reads = true
+								}
+							}
+						case *ast.Ident:
+							if d, ok := defs[objOf(info, x)]; ok && depth < 2 {
+								look(d, depth+1)
+							}
+						}
+						return true
+					})
+				}
+				look(is.Cond, 0)
+				if reads {
+					guarded = true
+				}
+			}
+			r.Check(guarded, "effects/unfold-only-direct-argument", ctx.FuncName(fobj)+" checks what the first assignment assigns", lit.Pos(), "the option is returned unchanged unless its first assignment assigns the argument itself",
+				"struct_fields_as_arguments rebuilds the assignments from the path of the first assignment without looking at its value: after disjunction_as_options the argument is one branch of the union (or sits inside the envelope that wraps it) and the unfolded option assigns item.type / item.collapsed on a type that has no such fields")
+		}
+	})
+	if seenA == 0 || seenB == 0 || seenC == 0 {
+		r.Undecided("anchor lost: RenameArgumentsAction (%d) / PromoteOptionsToConstructor (%d) / StructFieldsAsArgumentsAction (%d)", seenA, seenB, seenC)
+	}
+	r.Floor("appends to the constructor in promote_options_to_constructor", 2)
 }
